@@ -92,6 +92,31 @@ fn main() {
             )
             .chunked(1),
         );
+        // record files (each line corrupted / replaced by a second MODULE record, with and without final newline)
+        // and the tiny inputs: at the real constants a small file fits into the first read, so whole-buffer parsing
+        // hands the line parser everything in ONE call while a chunked reader hands it line by line
+        let mut recs = family_b(SHORT_RECORDS, "short");
+        recs.extend(family_b(RECORDS, "full"));
+        recs.extend(family_tiny());
+        let r = Arc::new(recs);
+        let (r1, r2) = (r.clone(), r.clone());
+        def.spaces.push(
+            Space::new(
+                "real-record-files",
+                r.len() as u64,
+                move |i, l| {
+                    let inp = &r1[i as usize];
+                    check_input(
+                        bm::REAL,
+                        inp,
+                        &Budget { exhaustive_sizes: false, dev_reads: 4, two_dev: false, model_async: false, compositions: true, two_split: false, model_check: false, chunk_sizes: vec![1, 2, 7, 16, 64], dev_menu: vec![1, 15, 16, 17], split_stride: 1 },
+                        l,
+                    )
+                },
+                move |i| r2[i as usize].json(),
+            )
+            .chunked(1),
+        );
         def.finish = Some(Box::new(|total, extra| {
             let g = |k: &str| total.counters.get(k).copied().unwrap_or(0);
             extra.insert("traces_validated_against_impl".into(), json!(g("traces_validated")));
